@@ -4,7 +4,7 @@ import json
 
 ID = "C12"
 PROPERTIES_V = ["theories/Properties/C12.v"]
-MAKE_TARGETS = ["theories/Properties/C12.vo", "theories/Model/C12Cases.vo"]
+MAKE_TARGETS = ["theories/Properties/C12.vo", "theories/Model/C12Cases.vo", "theories/Proofs/GenAgreeL1InfoIndex.vo"]
 HARNESS = "c12"
 CASES_IMPORTS = ("From Coq Require Import NArith ZArith List Uint63.\n"
                  "From Verif Require Import Base.Bytes Model.TreeStore Model.BridgeStore Model.ClaimFlow Model.C12Cases.")
